@@ -110,10 +110,13 @@ func NewPMT(pmtBytes []byte) (PMT, error) {
 }
 
 func (p *pmt) parseTables(pmtBytes []byte) error {
-	sectionBytes := pmtBytes[1+PointerField(pmtBytes):]
+	sectionBytes := firstSection(pmtBytes)
 
 	for len(sectionBytes) > 2 && sectionBytes[0] != 0xFF {
 		tableLength := sectionLength(sectionBytes)
+		if len(sectionBytes) < 3+int(tableLength) {
+			return gots.ErrPMTParse
+		}
 
 		if tableID(sectionBytes) == 0x2 {
 			err := p.parsePMTSection(sectionBytes[0 : 3+tableLength])
